@@ -272,6 +272,10 @@ def part_wiring(chk, drv):
 
 
 # ------------------------------------------------------------------------------------------------ end to end
+class OperatorsShareState(Exception):
+    """raised inside a rank by a harness-side comparison: two operator objects influence each other"""
+
+
 def op_body(npts, forced, iota, which, start):
     o = build(npts, forced, iota, start=start, seed=3, random_field=(which != 'init'))
     f, phi, rho = o['f'], o['phi'], o['rho']
@@ -300,6 +304,25 @@ def op_body(npts, forced, iota, which, start):
         pgv = np.empty([f.getLayout('v_parallel').shape[0], npts[2], npts[1]])
         o['vpar'].gridStep(f, phi, o['pg'], pgv, o['half'])
         o['vpar'].gridStepKeepGradient(f, pgv, o['half'])
+    elif which == 'vpar_seq':
+        # the Strang sequence twice on the same objects, the second potential being exactly zero on part of the radial domain (a
+        # whole block of some process, not of all): a decision taken from the local block would differ between decompositions
+        f.setLayout('v_parallel')
+        phi.setLayout('v_parallel_1d')
+        pgv = np.empty([f.getLayout('v_parallel').shape[0], npts[2], npts[1]])
+        fill_phi(phi, npts, 'v_parallel_1d', 7)
+        o['vpar'].gridStep(f, phi, o['pg'], pgv, o['half'])
+        o['vpar'].gridStepKeepGradient(f, pgv, o['half'])
+        fill_phi(phi, npts, 'v_parallel_1d', 11)
+        Lp = phi.getLayout('v_parallel_1d')
+        rpos = list(Lp.dims_order).index(0)
+        for i, gi in enumerate(range(Lp.starts[rpos], Lp.ends[rpos])):
+            if gi < npts[0] // 2:
+                idx = [slice(None)] * 3
+                idx[rpos] = i
+                phi.getAllData()[tuple(idx)] = 0.0
+        o['vpar'].gridStep(f, phi, o['pg'], pgv, o['half'])
+        o['vpar'].gridStepKeepGradient(f, pgv, o['half'])
     elif which == 'pol':
         f.setLayout('poloidal')
         phi.setLayout('poloidal')
@@ -320,6 +343,38 @@ def op_body(npts, forced, iota, which, start):
         phi.getAllData()[:] *= 0.01
         o['pol'].gridStep(f, phi, o['half'])
         o['pol'].gridStep_SplinesUnchanged(f, o['half'])
+    elif which == 'pol_two':
+        # two PoloidalAdvection operators on the same spline spaces (e.g. one per species): A.gridStep, then B.gridStep with another
+        # potential, then A.gridStep_SplinesUnchanged.  A must continue with ITS potential: the result is compared (bit for bit)
+        # with the same sequence without B, besides the serial / parallel comparison of the caller
+        from pygyro.advection.advection import PoloidalAdvection
+        f.setLayout('poloidal')
+        phi.setLayout('poloidal')
+        fill_phi(phi, npts, 'poloidal', 9)
+        phi.getAllData()[:] *= 0.01
+        f0 = np.array(f.getAllData(), copy=True)
+        A = o['pol']
+        B = PoloidalAdvection(f.eta_grid, f.getSpline(slice(1, None, -1)), o['constants'])
+        A.gridStep(f, phi, o['half'])
+        after_first = np.array(f.getAllData(), copy=True)
+        keep_phi = np.array(phi.getAllData(), copy=True)
+        fill_phi(phi, npts, 'poloidal', 13)
+        phi.getAllData()[:] *= 0.02
+        f.getAllData()[:] = f0
+        B.gridStep(f, phi, o['half'])
+        f.getAllData()[:] = after_first
+        A.gridStep_SplinesUnchanged(f, o['half'])
+        with_b = np.array(f.getAllData(), copy=True)
+        # reference: a fresh operator, the same two calls, nothing in between
+        R = PoloidalAdvection(f.eta_grid, f.getSpline(slice(1, None, -1)), o['constants'])
+        phi.getAllData()[:] = keep_phi
+        f.getAllData()[:] = f0
+        R.gridStep(f, phi, o['half'])
+        R.gridStep_SplinesUnchanged(f, o['half'])
+        if not np.array_equal(np.array(f.getAllData()), with_b):
+            raise OperatorsShareState('PoloidalAdvection: the result of A.gridStep_SplinesUnchanged depends on a gridStep of ANOTHER operator '
+                                      'in between (max difference %.3e)' % float(np.max(np.abs(np.array(f.getAllData()) - with_b))))
+        f.getAllData()[:] = with_b
     elif which == 'qn':
         f.setLayout('v_parallel')
         o['density'].getPerturbedRho(f, rho)
@@ -350,11 +405,14 @@ def part_operators(chk, stats):
     npts = (6, 8, 8, 9)
     grids = chk.n([(2, 1), (1, 2), (2, 2), (3, 2)], [(2, 1), (1, 2), (2, 2), (3, 2), (3, 1), (1, 3), (2, 3), (2, 4), (6, 1), (3, 3)])
     for which, start, iotas in (('init', 'flux_surface', [0.8]), ('init', 'poloidal', [0.8]), ('init', 'v_parallel', [0.8]),
-                                ('flux', 'flux_surface', [0.0, 0.8]), ('flux_tuned', 'flux_surface', [0.8]), ('vpar', 'v_parallel', [0.8]), ('pol', 'poloidal', [0.8]), ('pol_seq', 'poloidal', [0.8]), ('qn', 'v_parallel', [0.8])):
+                                ('flux', 'flux_surface', [0.0, 0.8]), ('flux_tuned', 'flux_surface', [0.8]), ('vpar', 'v_parallel', [0.8]), ('vpar_seq', 'v_parallel', [0.8]), ('pol', 'poloidal', [0.8]), ('pol_seq', 'poloidal', [0.8]), ('pol_two', 'poloidal', [0.8]), ('qn', 'v_parallel', [0.8])):
         for iota in iotas:
             ref = lu.run_ranks(1, op_body, npts, (1, 1), iota, which, start)
             if not ref.ok:
-                chk.fail('C05:serial-run', 'serial %s raised: %s' % (which, str(ref.first_error())[:200]), {'op': which})
+                if 'OperatorsShareState' in str(ref.first_error()):
+                    chk.fail('C05:operators-share-state', str(ref.first_error())[:260], {'operator': which, 'npts': npts, 'process_grid': (1, 1)})
+                else:
+                    chk.fail('C05:serial-run', 'serial %s raised: %s' % (which, str(ref.first_error())[:200]), {'op': which})
                 continue
             refG = {k: assemble([v], npts) for k, v in ref.values()[0].items()}
             # (1, 8): every process owns exactly one z plane in the layouts that distribute z over the second process axis
